@@ -3,7 +3,7 @@
 use crate::core::*;
 use crate::engine::*;
 use crate::graphcase::*;
-use crate::props::c13::{resolution_of, threshold_of, STEP_BUDGET};
+use crate::props::c13::{resolution_of, threshold_of};
 use graphrs::algorithms::{centrality, cluster, community, components, shortest_path::dijkstra};
 use graphrs::generators::random::fast_gnp_random_graph;
 use proptest::prelude::*;
@@ -32,7 +32,7 @@ pub fn results(case: &DetCase) -> Result<(Value, Vec<f64>), String> {
             let ng = g.norm();
             let graph = ng.build();
             let w = *weighted && ng.weighted;
-            graphrs::verif::set_step_budget(Some(STEP_BUDGET));
+            graphrs::verif::set_step_budget(Some(3000));
             let r = guard(|| community::louvain::louvain_partitions(&graph, w, resolution_of(*res), threshold_of(*thr), Some(*seed)));
             let c = guard(|| community::louvain::louvain_communities(&graph, w, resolution_of(*res), threshold_of(*thr), Some(*seed)));
             graphrs::verif::set_step_budget(None);
